@@ -361,6 +361,7 @@ impl Model {
             "DBSIZE" => { if n != 1 { return Some(Exp::Err); } Exp::Is(R::Int(d.map.len() as i64)) }
             "RANDOMKEY" => { if n != 1 { return Some(Exp::Err); } if d.map.is_empty() { Exp::Is(R::Nil) } else { Exp::PickOne(d.map.keys().cloned().collect()) } }
             "FLUSHDB" | "FLUSHALL" => Exp::Is(ok()),
+            "ECHO" => { if n != 2 { return Some(Exp::Err); } Exp::Is(bulk(&a[1])) }
             // (only used by checks whose runs have no subscribers)
             "PUBLISH" => { if n != 3 { return Some(Exp::Err); } Exp::Is(R::Int(0)) }
             "EXPIRE" | "PEXPIRE" => { if n != 3 { return Some(Exp::Err); } match int_arg(&a[2]) { None => Exp::Err, Some(_) => Exp::Is(R::Int(if d.map.contains_key(&a[1]) { 1 } else { 0 })) } }
